@@ -908,11 +908,17 @@ func main() {
 	random := flag.Int("random", 0, "number of seeded random histories")
 	rlen := flag.Int("len", 60, "steps per random history")
 	first := flag.Int("first", 0, "index of the first random history / schedule (shards of one run use disjoint ranges)")
+	table := flag.String("table", "", "case table exported by TLC from MC_UpgradeQ (json lines)")
 	flag.Parse()
 	o := tr.Create(*out)
 	defer o.Close()
 	st := &runStats{}
 	seed := tr.Seed()
+	ncases, nlisten := 0, 0
+	if *table != "" {
+		ncases = runTable(*table, o, seed)
+		nlisten = runListener(o, seed, 6)
+	}
 	if *cases != "" {
 		i := *first
 		tr.ReadLines(*cases, func(raw []byte) {
@@ -937,6 +943,6 @@ func main() {
 		randomWorld(seed, i, *rlen, o, rnd, st)
 	}
 	sim.Cleanup()
-	fmt.Fprintf(os.Stdout, "worlds=%d blocks=%d votes=%d persists=%d restarts=%d offers=%d crafted=%d forced=%d refused=%d upgrades=%d newgen=%d delivers=%d probes=%d queries=%d full=%d lagged=%d empty=%d\n",
-		st.worlds, st.blocks, st.votes, st.persists, st.restarts, st.offers, st.crafted, st.forced, st.refused, st.upgrades, st.newgen, st.delivers, st.probes, st.queries, st.full, st.lagged, st.empty)
+	fmt.Fprintf(os.Stdout, "worlds=%d blocks=%d votes=%d persists=%d restarts=%d offers=%d crafted=%d forced=%d refused=%d upgrades=%d newgen=%d delivers=%d probes=%d queries=%d full=%d lagged=%d empty=%d cases=%d listener=%d\n",
+		st.worlds, st.blocks, st.votes, st.persists, st.restarts, st.offers, st.crafted, st.forced, st.refused, st.upgrades, st.newgen, st.delivers, st.probes, st.queries, st.full, st.lagged, st.empty, ncases, nlisten)
 }
